@@ -64,8 +64,9 @@ CLAIMS['C19'] = dict(category='proof', ref='8 C19',
          "exited, socket closed, stop() effects complete, the will published if its flag was set and no DISCONNECT was pending "
          "(C19_timeout_tears_down, citing C16_read_failure_completes / C16_teardown_completes / C16_self_held_not_ended; repair b77088f, "
          "finding F7 - before it such a connection survived the time-out: C16_old_receiver_wedges). FULL STATEMENT FALSE of the code "
-         "(open finding F8): the deadline is armed per socket read and a read is issued only when a read block of ring space is free; a "
-         "client that stops reading and keeps sending until its writes block fills both rings, the receiver waits for space, nothing is "
+         "(open finding F8): the deadline is armed per socket read and a read is issued only while the incoming ring is not completely full "
+         "(since 8f682d1; before: only while a whole read block was free, finding F3); a "
+         "client that stops reading and keeps sending until its writes block fills both rings completely, the receiver waits for space, nothing is "
          "armed, silence changes nothing (C19_silence_counterexample: closed reachable state, invariant under every schedule of thread "
          "steps and deadline attempts). Tied to the real broker by timed scenarios (K=1,2 s: "
          "silent from start, pinging, publishing, interval above the deadline, silent subscriber, and a subject that has stopped READING: "
@@ -203,7 +204,7 @@ CLAIMS['C17'] = dict(category='proof', ref='5 Core F, 8 C17',
          "(Len()-vs-Encode() mismatch A2 belongs there); that no write bypasses wmu is C18.")
 
 CLAIMS['C16'] = dict(category='proof', ref='5 Core F, 8 C16',
-    text="Lean 4 theorems (21), for ALL initial buffer states, traffic, schedules of thread steps and interleaved environment events (peer closes / stops "
+    text="Lean 4 theorems (23), for ALL initial buffer states, traffic, schedules of thread steps and interleaved environment events (peer closes / stops "
          "reading / keep-alive fires / the connection a delivery is addressed to blocks / Server.Close), over a small-step model of one connection's "
          "life-cycle at ring-call granularity (receiver, processor, sender, any number of stop() callers and of external writers; Model/Lifecycle.lean): "
          "invariants in every reachable state (C16_invariant); at most one stop() call past the CAS, effects unsubscribe / will-if-flag / delete-if-clean "
@@ -212,38 +213,45 @@ CLAIMS['C16'] = dict(category='proof', ref='5 Core F, 8 C16',
          "fair round-robin reaches quiescence within rank(s) rounds (C16_teardown_bounded); from any reachable state in which the connection has ended "
          "round-robin ends in the complete teardown (goroutines exited, stop returned, effects complete) unless the processor is inside a delivery into "
          "ANOTHER connection that is still open, has stopped reading and is full - all that is left of the property's exemption (HeldUp = HeldByThird, "
-         "C16_exemption_is_third_party; shown necessary by C16_exemption_needed) - or the state is the F3 wedge (C16_no_deadlock_partial, "
-         "C16_teardown_completes). The former second exemption - a connection whose processor is parked in its OWN outgoing ring behind its own "
+         "C16_exemption_is_third_party; shown necessary by C16_exemption_needed) - and in such a state some thread can always step otherwise "
+         "(C16_no_deadlock, C16_teardown_completes: the full statement with the property's exemption, no other exception since the repair of F3). "
+         "The former second exemption - a connection whose processor is parked in its OWN outgoing ring behind its own "
          "non-reading client - is REMOVED by the repair b77088f (finding F7: the receiver closes the socket when its read has failed): in a state in "
          "which nothing can run such a connection has not ended (C16_self_held_not_ended), and once the receiver's read has failed - keep-alive deadline, "
-         "peer close or reset, anything that puts the receiver past its loop - round-robin ends in the complete teardown or HeldByThird, neither the "
-         "self-held state nor the F3 wedge can intervene (C16_read_failure_completes); with the receiver before the repair the model wedges in exactly "
+         "peer close or reset, anything that puts the receiver past its loop - round-robin ends in the complete teardown or HeldByThird, the "
+         "self-held state cannot intervene (C16_read_failure_completes); with the receiver before the repair the model wedges in exactly "
          "that state (closed counterexample C16_old_receiver_wedges: ended, quiescent, nothing torn down, no exemption applies). Once stop() has passed its CAS and no foreign delivery is blocked "
          "the teardown ALWAYS completes, and Server.Close (all outgoing rings closed first, then stop) returns (C16_stop_completes, C16_server_close); "
          "stop() never clears the ring pointers, no foreign writer dereferences nil, a delivery to a closed ring fails at once (C16_no_foreign_panic, "
-         "C16_late_delivery_fails_fast). FULL STATEMENT FALSE of the code: a packet longer than ring size - 8 KiB arriving in pieces parks receiver and "
-         "processor for good (C16_no_deadlock_counterexample - closed reachable state; C16_chunk_wedge_char; open finding F3, witness replayed on every "
-         "run). Closed counterexamples: the model wedges with the ring before 584775d (D2), a writer panics with the stop() before e79396e (F1), stop() "
+         "C16_late_delivery_fails_fast). REPAIRED HERE (finding F3, repository commit 8f682d1: ReadFrom waits for one free byte instead of a whole 8 KiB "
+         "read block and reads into the free contiguous part of the ring): a receiver inside its loop that cannot step is inside a socket read with the "
+         "deadline armed and the peer's close noticeable, or faces a completely full, open incoming ring (C16_receiver_reads_while_room); when nothing can "
+         "run and the processor waits for the rest of a packet that fits the ring, every byte the peer has sent is in the ring and a socket read is pending "
+         "(C16_chunked_packet_completes); a packet of length <= ring size whose bytes are on the wire arrives under fair round-robin whatever the piece "
+         "sizes (C16_chunked_packet_arrives); with the ReadFrom before the repair the model wedges - ended, quiescent, nothing torn down, three goroutines "
+         "parked - and the repaired one tears the same state down, will included (closed C16_old_readfrom_wedges; the witness of F3 is a regression case "
+         "on every run, and packets of every length up to the ring size in pieces are ordinary scenarios: conditions chunked, chunkwhole). At the level of "
+         "the real ring: C15_ReadFrom_waits_only_when_full. Closed counterexamples: the model wedges with the ring before 584775d (D2), a writer panics with the stop() before e79396e (F1), stop() "
          "wedges when Wait precedes the Close calls, the sequential Server.Close before 08d14fb hangs (F6, found and repaired here), the receiver before "
          "b77088f leaves a self-held connection standing after a keep-alive expiry (F7). The order of stop(), its "
          "guards, the deferred recovers, Done-then-stop, the processor loop, writeMessage's lock structure, Server.Close, the receiver's conn.Close-then-return "
          "after a failed ReadFrom and the ring's lock structure are "
-         "regenerated from the source and tied by decide (C16_source_shape). Tied to the real broker by fault sequences (7 buffer conditions x 6 causes x "
+         "regenerated from the source and tied by decide (C16_source_shape). Tied to the real broker by fault sequences (8 buffer conditions x 6 causes x "
          "order of ends, raw clients that stop reading; model stream = outcome of the model under fair round-robin, line equality). PARTIAL: bounded "
          "time = bounded number of own steps under weak fairness of the Go scheduler (trusted); socket semantics are parameters; the rings are abstracted "
          "to call level - that contract is C15's, cited, not re-derived; one connection is modelled, the broker around it is environment. OPEN (finding F8, "
          "with C19): 'ended' presupposes that the end can be noticed - a connection whose client has stopped reading and kept sending until BOTH rings are "
-         "full has its receiver waiting for ring space, no read pending, no deadline armed; keep-alive never fires on it (scenario selffull keepalive: "
+         "full has its receiver waiting because the incoming ring is completely full, no read pending, no deadline armed; keep-alive never fires on it (scenario selffull keepalive: "
          "token held-up-by-self, accepted only inside this known-finding class; NOTES-f7.md).",
     technique='machine-checked proof in Lean 4 (invariants + termination measure of a concurrent small-step program, for all schedules) + fault-sequence correspondence on the real broker')
 
 CLAIMS['C14'] = dict(category='proof', ref='5 Core D, 8 C14',
-    text="Lean 4 theorems over all thread programs and all schedules of the small-step model of service/buffer.go (one step per shared access, per byte copied): safety invariant preserved by every step; the bytes the consumer obtained are exactly the source stream prefix and lie below the producer cursor; no producer step writes a cell of the consumer's uncommitted window; model tied to the code by schedules replayed on the real buffer (yield hooks), lock-structure facts by decide",
+    text="Lean 4 theorems over all thread programs and all schedules of the small-step model of service/buffer.go (one step per shared access, per byte copied; ReadFrom - repaired by 8f682d1 to wait for one free byte and read into the free contiguous part of the ring - modelled whole with an arbitrary reader script): safety invariant preserved by every step; the bytes the consumer obtained are exactly the source stream prefix and lie below the producer cursor; no producer step writes a cell of the consumer's uncommitted window; the slice ReadFrom hands its reader lies in [pseq, cseq+size) and its WriteCommit finds its space (C14_readfrom_slice_free); model tied to the code by schedules replayed on the real buffer (yield hooks; ReadFrom scheduled at its marks with less than a read block free), lock-structure facts by decide",
     technique='machine-checked proof in Lean 4 (invariants of a concurrent small-step program, for all schedules) + differential correspondence of schedules on the real buffer',
     note='Trusted: Lean kernel; axioms propext/Classical.choice/Quot.sound only; Go harness (model-guided scheduler at the verifYield marks) + line protocol + fact extractor; Go runtime semantics assumed by the model: sync.Mutex, sync.Cond, sequentially consistent atomics, scheduler fairness for liveness (see evidence.assumptions, NOTES-ring.md)')
 
 CLAIMS['C15'] = dict(category='proof', ref='5 Core D, 8 C15',
-    text='Lean 4 theorems over all programs and schedules of the repaired buffer: a mutex is held only inside its critical section (never by a returned thread), no lost wake-up (a parked waiter whose condition is met has a pending broadcaster), Close is a straight line of 7 own steps blocked only by a held mutex whose holder is enabled and releases within 3 steps, done exits every wait loop, a termination measure strictly decreasing with every enabled step (no livelock; at most mu(init) enabled steps in any schedule), and at quiescence every unfinished call waits legitimately (all returned once Close was called); scheduler fairness is the remaining hypothesis; tie as C14 with the lock probe compared after every step and a fair finish phase (Close, later calls) on the real buffer',
+    text='Lean 4 theorems over all programs and schedules of the repaired buffer: a mutex is held only inside its critical section (never by a returned thread), no lost wake-up (a parked waiter whose condition is met has a pending broadcaster), Close is a straight line of 7 own steps blocked only by a held mutex whose holder is enabled and releases within 3 steps, done exits every wait loop, a termination measure strictly decreasing with every enabled step (no livelock; at most mu(init) enabled steps in any schedule), and at quiescence every unfinished call waits legitimately (all returned once Close was called); ReadFrom (8f682d1) never hands its reader an empty slice, its WriteCommit never waits, and it is kept from reading only by a completely full, open ring (C15_ReadFrom_reads_nonempty, C15_ReadFrom_waits_only_when_full; before the repair: by less than a read block free, finding F3); scheduler fairness is the remaining hypothesis; tie as C14 with the lock probe compared after every step and a fair finish phase (Close, later calls) on the real buffer',
     technique='machine-checked proof in Lean 4 (invariants of a concurrent small-step program, for all schedules) + differential correspondence of schedules on the real buffer',
     note='Trusted: Lean kernel; axioms propext/Classical.choice/Quot.sound only; Go harness (model-guided scheduler at the verifYield marks) + line protocol + fact extractor; Go runtime semantics assumed by the model: sync.Mutex, sync.Cond, sequentially consistent atomics, scheduler fairness for liveness (see evidence.assumptions, NOTES-ring.md)')
 CLAIMS['C18'] = dict(category='other', ref='5 Core G, 8 C18',
@@ -358,8 +366,9 @@ CLAIMS['C05'] = dict(category='proof', ref='5 Core A/E/F, 8 C05',
          "contain (decoders, framing functions) and cannot exhibit one in code they do not model (logging, TLS, the websocket bridge, the Go runtime); "
          "the broker model takes one event as one atomic step, so 'all timings of the teardown relative to publishes' is covered by event order in the theorems "
          "and by the race event (unserialised writes) plus the C16/C18 checks on the real code, not by a theorem about interleavings; the byte-to-event "
-         "translation is shared by the model and the reference stream (what the decoders accept is C03/C04); a packet of more than ring size - 8 KiB sent in "
-         "pieces can wedge its own connection (F3, C16) and is kept out of the generators.",
+         "translation is shared by the model and the reference stream (what the decoders accept is C03/C04). Packets that need the last 8 KiB read block of the "
+         "ring (ring size - 8 KiB < length <= ring size), whole or split across events, are ordinary generator cases since the repair of F3 (8f682d1; "
+         "before it they could wedge their own connection, C16).",
     technique='machine-checked proof in Lean 4 (framing totality and bounds over all byte streams; isolation and lifting on the sequential broker model) + differential correspondence of byte streams on the real broker (real code vs code-shaped model vs reference broker)',
     note='Trusted: Lean kernel; axioms propext/Classical.choice/Quot.sound only; Go harness (raw clients over net.Pipe, PINGREQ barriers, frame scanner used only to know when to wait) + line protocol + fact extractor; Go runtime semantics assumed by the models (slices, append, binary.Uvarint, net.Conn reads, recover); see evidence.assumptions')
 
